@@ -80,7 +80,22 @@ def read_doc(path, root=None):
         d = {'kind': kind, 'id': el.get('id') if tag != 'scxml' else None, 'parent': parent, 'children': [], 'docpos': me,
              'initial': (el.get('initial') or '').split() if tag in ('scxml', 'state') else [],
              'has_initial_attr': el.get('initial') is not None and tag in ('scxml', 'state'),
-             'transitions': [], 'el': el}
+             'transitions': [], 'el': el, 'lognum': -1, 'lognum_ok': True}
+        # ORDER_LOG convention (corpus/c12, corpus/gen_charts.py): <onentry><log expr="Enn"/>, <onexit><log expr="Xnn"/> with the same nn
+        nums = {}
+        for ch in el:
+            if isinstance(ch.tag, str) and ch.tag.startswith(ns) and _local(ch.tag) in ('onentry', 'onexit'):
+                logs = [g for g in ch if isinstance(g.tag, str) and _local(g.tag) == 'log']
+                others = [g for g in ch if isinstance(g.tag, str) and _local(g.tag) != 'log']
+                m = re.match(r'^([EX])(\d\d)$', logs[0].get('expr') or '') if len(logs) == 1 and not others else None
+                if m and m.group(1) == ('E' if _local(ch.tag) == 'onentry' else 'X') and _local(ch.tag) not in nums:
+                    nums[_local(ch.tag)] = int(m.group(2))
+                else:
+                    d['lognum_ok'] = False
+        if d['lognum_ok'] and len(nums) == 2 and nums['onentry'] == nums['onexit']:
+            d['lognum'] = nums['onentry']
+        else:
+            d['lognum_ok'] = False
         elems.append(d)
         if parent is not None:
             elems[parent]['children'].append(me)
@@ -92,7 +107,8 @@ def read_doc(path, root=None):
                 d['transitions'].append({'targets': (ch.get('target') or '').split(), 'has_target': ch.get('target') is not None,
                                          'internal': (ch.get('type') or '').lower() == 'internal',
                                          'event': ch.get('event'), 'cond': ch.get('cond'),
-                                         'has_content': any(isinstance(g.tag, str) for g in ch)})
+                                         'has_content': any(isinstance(g.tag, str) for g in ch),
+                                         'lognum': (lambda kids: int(kids[0].get('expr')[1:]) if len(kids) == 1 and _local(kids[0].tag) == 'log' and re.match(r'^T\d\d$', kids[0].get('expr') or '') else -1)([g for g in ch if isinstance(g.tag, str)])})
             elif t in STATE_TAGS and t != 'scxml':
                 walk(ch, me)
         return me
@@ -247,11 +263,19 @@ def facts_c(doc_path, ctext, index=0, root=None):
     arr('d_tntgt', [str(len(tg)) for _, _, tg in trans])
     out.append('static const int d_ttgt[D_T + 1][D_MAXTG] = { %s };' % ', '.join(
         ['{ %s }' % ', '.join(str(x) for x in (tg + [-1] * (maxtg - len(tg)))) for _, _, tg in trans] + ['{ -1 }']))
+    # ORDER_LOG convention: every proper state logs Enn / Xnn with a number of its own, every transition of a proper state Tnn
+    proper = [k for k in range(n) if elems[e2d[k]]['kind'] <= K_FINAL and k != 0]
+    lognums = [elems[e2d[k]]['lognum'] for k in proper]
+    tl = [tr['lognum'] for s_, tr, _ in trans if elems[e2d[s_]]['kind'] <= K_FINAL]
+    order_log = bool(proper) and all(x >= 0 for x in lognums) and len(set(lognums)) == len(lognums) and all(x >= 0 for x in tl) and len(set(tl)) == len(tl)
+    out.append('#define D_ORDER_LOG %d' % (1 if order_log else 0))
+    out.append('static const int d_lognum[D_N] = { %s };' % ', '.join(str(elems[e2d[k]]['lognum'] if (order_log and k in proper) else -1) for k in range(n)))
+    arr('d_tlognum', [str(tr['lognum'] if order_log else -1) for _, tr, _ in trans])
     out.append('static const char *const d_tevent[D_T + 1] = { %s };' % ', '.join([c_str(tr['event']) for _, tr, _ in trans] + ['NULL']))
     info = {'states': n, 'transitions': T, 'machines_in_file': em['machines'], 'unresolved_target_ids': unresolved,
             'idless_elements': sum(1 for e in elems if e['id'] is None) - 1, 'prefix': em['prefix'],
             'all_nr_states': em['all_nr_states'], 'all_nr_trans': em['all_nr_trans'],
             'kinds': [elems[e2d[k]]['kind'] for k in range(n)],
             'has_history': any(e['kind'] in (K_HSHALLOW, K_HDEEP) for e in elems),
-            'has_parallel': any(e['kind'] == K_PARALLEL for e in elems)}
+            'has_parallel': any(e['kind'] == K_PARALLEL for e in elems), 'order_log': order_log}
     return '\n'.join(out) + '\n', info
